@@ -12,16 +12,6 @@ namespace Rx
 open KlogV.RxM
 
 /-- the patterns of the code denote the expected marked languages (decided in the kernel by the verified checker) -/
-theorem timePattern_tied' : equivCheck 2000 (mark Gen.rx_klog_timePattern) (mark Expect.time) = true := by decide +kernel
-theorem durationPattern_tied' : equivCheck 2000 (mark Gen.rx_klog_durationPattern) (mark Expect.duration) = true := by decide +kernel
-
-theorem time_iff (env : Env) (m : List Sym) :
-    Matches env (mark Gen.rx_klog_timePattern) m ↔ Matches env (mark Expect.time) m :=
-  KlogV.Rx.equivCheck_sound 2000 _ _ timePattern_tied' env m
-
-theorem duration_iff (env : Env) (m : List Sym) :
-    Matches env (mark Gen.rx_klog_durationPattern) m ↔ Matches env (mark Expect.duration) m :=
-  KlogV.Rx.equivCheck_sound 2000 _ _ durationPattern_tied' env m
 
 theorem range5 : List.range 5 = [0, 1, 2, 3, 4] := by decide
 
